@@ -393,6 +393,59 @@ def rule_m(F):
     return res
 
 
+def _str_values(F, e):
+    """string literals in an expression, named constants resolved to their value"""
+    out = []
+    for z in hir_walk(e):
+        if z.get("k") == "lit" and z["lit"].get("k") == "str":
+            out.append(z["lit"].get("v"))
+        elif z.get("k") == "path" and z["path"]["res"].get("k") == "def" and "Const" in (z["path"]["res"].get("def_kind") or ""):
+            c = F.fn(short(z["path"]["res"].get("path", "")), required=False)
+            if c is not None and c.hir:
+                out.extend(v["lit"].get("v") for v in hir_walk(c.hir["body"]) if v.get("k") == "lit" and v["lit"].get("k") == "str")
+    return out
+
+
+def super_parser(F):
+    """the function that splits the leading `super.` components off an import: compiler::super_depth, or (renamed / made a
+    constructor) the one compiler function that searches a string for "super" """
+    f = F.fn("compiler::super_depth", required=False)
+    if f is not None and f.hir:
+        return f
+    cands = []
+    for g in F.fns:
+        if not g.hir or g.is_closure or not g.path.startswith("compiler::") or "Fn" not in g.kind:
+            continue
+        if any(y.get("k") == "mcall" and any(isinstance(v, str) and "super" in v for a in y.get("args") or [] for v in _str_values(F, a))
+               for y in hir_walk(g.hir["body"])):
+            cands.append(g)
+    if len(cands) != 1:
+        raise AnchorMissing("the function that parses the leading `super.` of an import (found %d)" % len(cands))
+    return cands[0]
+
+
+def _typed_bindings(p, out=None):
+    """bindings of a pattern with their types: [(id, name, ty)]"""
+    if out is None:
+        out = []
+    if p is None:
+        return out
+    k = p.get("k")
+    if k == "bind":
+        out.append((p["id"], p["name"], p.get("ty")))
+        if "sub" in p:
+            _typed_bindings(p["sub"], out)
+    elif k == "struct":
+        for f_ in p["fields"]:
+            _typed_bindings(f_["pat"], out)
+    elif k in ("tuple_struct", "or", "tuple"):
+        for x in p["pats"]:
+            _typed_bindings(x, out)
+    elif k in ("box", "deref", "ref", "guard"):
+        _typed_bindings(p["pat"], out)
+    return out
+
+
 def rule_p(F):
     """C08.P: `super.` walking up. (1) super_depth recognises `super.` only as whole leading path components: every string
     search for the literal "super." in it is prefix-anchored (strip_prefix / starts_with); an unanchored search
@@ -402,19 +455,20 @@ def rule_p(F):
     `prefix.function` call is appended as it is: otherwise `super.` is counted twice and the import never resolves.
     (3) see checked_depth_cuts_namespace."""
     res = []
-    sd = F.fn("compiler::super_depth")
+    sd = super_parser(F)
+    SD = sd.short
     anchored, loose = [], []
     for y in hir_walk(sd.hir["body"]):
         if y.get("k") != "mcall":
             continue
-        lits = [z["lit"].get("v") for a in y.get("args") or [] for z in hir_walk(a) if z.get("k") == "lit" and z["lit"].get("k") == "str"]
+        lits = [v for a in y.get("args") or [] for v in _str_values(F, a)]
         if not any(isinstance(v, str) and "super" in v for v in lits):
             continue
         if y["name"] in ("strip_prefix", "starts_with"):
             anchored.append(y)
         else:
             loose.append(y)
-    key = "C08/P/super_depth/super-is-a-leading-component"
+    key = "C08/P/%s/super-is-a-leading-component" % sd.name
     if loose:
         res.append(bad("C08.P", key, sd.loc(loose[0].get("ln")),
                        "super_depth looks for \"super.\" with str::%s, which also matches inside a name (the import `mysuper.foo` of a module "
@@ -423,23 +477,26 @@ def rule_p(F):
     elif anchored:
         res.append(ok("C08.P", key, sd.loc(anchored[0].get("ln")), "\"super.\" is only matched with %s" % sorted(set(a["name"] for a in anchored))))
     else:
-        raise AnchorMissing("string search for \"super.\" in compiler::super_depth")
+        raise AnchorMissing("string search for \"super.\" in %s" % sd.short)
     n = 0
     sd_users = [g for g in F.fns if g.hir and not g.is_closure and g.path.startswith("compiler::") and g is not sd
-                and any(x.get("k") == "call" and "compiler::super_depth" in hir_callee(x) for x in hir_walk(g.hir["body"]))]
+                and any(x.get("k") == "call" and SD in hir_callee(x) for x in hir_walk(g.hir["body"]))]
     for f, bl in [(g, x) for g in sd_users for x in hir_walk(g.hir["body"]) if x.get("k") == "block"]:
         for st in bl["block"]["stmts"]:
             if st["k"] != "let" or st.get("init") is None:
                 continue
             init = hu.strip_all(st["init"])
-            if not (init.get("k") == "call" and "compiler::super_depth" in hir_callee(init)):
+            if not (init.get("k") == "call" and SD in hir_callee(init)):
                 continue
             alias = hir_local_id(hu.strip_all(init["args"][0]))
-            binds = pat_bindings(st["pat"])
-            if alias is None or len(binds) != 2:
+            binds = _typed_bindings(st["pat"])
+            strs = [b_ for b_ in binds if "str" in (b_[2] or "")]
+            if alias is None or len(binds) != 2 or len(strs) != 1:
                 res.append(undecided("C08.P", "C08/P/%s/site%d" % (f.name, n), f.loc(st.get("ln")), "super_depth call of another shape"))
                 continue
-            s_id = binds[1][0]
+            s_id = strs[0][0]
+            # the parser may hand back the stripped alias itself (&str) instead of Option<&str> (None = nothing stripped)
+            already_stripped = "Option" not in (strs[0][2] or "")
             n += 1
             key = "C08/P/%s/import#%d-alias-enters-stripped" % (f.name, n)
             # occurrences of alias in the block, outside the super_depth call itself
@@ -455,7 +512,8 @@ def rule_p(F):
                         p = par.get(id(p))
                     if p is init or any(z is x for z in hir_walk(init)):
                         continue
-                    if p is not None and p.get("k") == "mcall" and p["name"] in ("unwrap_or",) and hir_local_id(hu.strip_all(p["recv"])) == s_id:
+                    if not already_stripped and p is not None and p.get("k") == "mcall" and p["name"] in ("unwrap_or",) \
+                            and hir_local_id(hu.strip_all(p["recv"])) == s_id:
                         continue
                     bad_use = x
             # the stripped form must not swallow the function part: unwrap_or(recv s) takes only the alias
@@ -499,7 +557,7 @@ def depth_calls(F, f, du, memo):
         atoms = set()
         for a in t["args"]:
             atoms |= mir_provenance(F, f, du, a, memo)
-        if ("current_namespace" in inner or ("field", "current_namespace") in atoms) and ("call", "super_depth") in atoms:
+        if ("current_namespace" in inner or ("field", "current_namespace") in atoms) and ("call", super_parser(F).name) in atoms:
             out.append((bi, t))
     return out
 
@@ -1152,10 +1210,14 @@ def rule_h(F):
     names = hir_callee(e) if e.get("k") in ("call", "mcall") else []
     ctor = [n.rsplit("::", 1)[-1] for n in names if "Handle::" in n]
     params = [p.get("id") for p in g.hir["params"]]
-    if ctor and ctor[0] in ("from_u64", "from_u32", "from_i64") and e["args"]:
-        lid = hir_local_id(hu.strip_all(e["args"][0]))
+    INJ = ("from_u64", "from_u32", "from_i64")
+    handle_is_param = hir_local_id(e) in params and not hu.let_inits(g).get(hir_local_id(e))
+    if (ctor and ctor[0] in INJ and e["args"]) or handle_is_param:
+        # the handle is made from an index parameter here, or it is a parameter and every caller makes it from the index
+        lid = hir_local_id(e) if handle_is_param else hir_local_id(hu.strip_all(e["args"][0]))
         if lid in params:
             pidx = params.index(lid)
+            site_ctors = set()
             # every call site passes `<vec>.len()` of the vector the result is pushed onto: directly
             # (`out.push(f(out.len(), ..))`) or through single-assignment temporaries (`let i = out.len(); let ir = f(i, ..);
             # out.push(ir)`) with nothing else done to the vector between reading its length and the push
@@ -1194,6 +1256,18 @@ def rule_h(F):
                     lid = hir_local_id(a)
                     if lid is not None and len(inits.get(lid, [])) == 1:
                         a = hu.strip_all(inits[lid][0])
+                    if handle_is_param:
+                        # the caller builds the handle: Handle::from_u64(<index>)
+                        cn = [n.rsplit("::", 1)[-1] for n in (hir_callee(a) if a.get("k") in ("call", "mcall") else []) if "Handle::" in n]
+                        if not (cn and cn[0] in INJ and a["args"]):
+                            good = False
+                            why = "the handle passed at %s is not an injective function of the position (%s)" % (f.loc(c["ln"]), cn or a.get("k"))
+                            continue
+                        site_ctors.add(cn[0])
+                        a = hu.strip_all(a["args"][0])
+                        lid = hir_local_id(a)
+                        if lid is not None and len(inits.get(lid, [])) == 1:
+                            a = hu.strip_all(inits[lid][0])
                     if not (a.get("k") == "mcall" and a["name"] == "len" and hir_local_id(hu.strip_all(a["recv"])) == recv and recv is not None):
                         good = False
                         why = "the index argument at %s is not `<out>.len()` of the vector the function is pushed onto" % f.loc(c["ln"])
@@ -1206,7 +1280,7 @@ def rule_h(F):
             if sites == 0 or calls != sites:
                 res.append(undecided("C08.H", key, g.loc(), "function_to_function_ir is not (only) called as `out.push(function_to_function_ir(out.len(), ..))`"))
             elif good:
-                res.append(ok("C08.H", key, g.loc(hexpr.get("ln")), "handle = %s(position in the flattened output), taken as out.len() at the push: unique per function" % ctor[0]))
+                res.append(ok("C08.H", key, g.loc(hexpr.get("ln")), "handle = %s(position in the flattened output), taken as out.len() at the push: unique per function" % (ctor[0] if ctor else "/".join(sorted(site_ctors)))))
             else:
                 res.append(bad("C08.H", key, g.loc(hexpr.get("ln")), "function handles are derived from an index that is not unique per function: " + why))
             return res
